@@ -224,7 +224,7 @@ func runC20(c *Ctx) {
 				c.Check(!goSeen, rb, key, p.Pos(a.Instr.Pos()), "initialisation precedes the go statement that shares the variable", "access after the loop goroutine was started, without the lock")
 				continue
 			}
-			if held[a.Instr][lockKey] {
+			if lockOK(held[a.Instr], lockKey, a.Write) {
 				c.Pass(rb, key, p.Pos(a.Instr.Pos()), "healthMu held")
 			} else {
 				c.Fail(rb, key, p.Pos(a.Instr.Pos()), "health counter accessed without holding healthMu")
